@@ -205,7 +205,7 @@ def main():
         )
     man = {
         "version": 1,
-        "setup_cmd": f"{PY} -c 'import hypothesis' 2>/dev/null || /venv/bin/pip install --no-index --find-links /opt/veriftools/wheels hypothesis",
+        "setup_cmd": f"({PY} -c 'import hypothesis' 2>/dev/null || /venv/bin/pip install --no-index --find-links /opt/veriftools/wheels hypothesis) && (test -d /verif/.deps/atheris || /venv/bin/pip install -q --no-index --find-links /opt/veriftools/wheels --target /verif/.deps atheris || true)",
         "hooks": {
             "guard": "OFXTOOLS_VERIF",
             "enable": "no source hooks: checks import /repo's working tree directly (ofxtools is installed editable in /venv and /repo is put first on sys.path)",
@@ -219,7 +219,13 @@ def main():
                 "path": "pbt/",
                 "serves_properties": sorted(CHECKS),
                 "kind_free_text": "Hypothesis strategies / stateful machines / exhaustive enumeration over a process pool, explicit oracles, collect-then-shrink, replay files",
-            }
+            },
+            {
+                "name": "atheris-fuzz",
+                "path": "fuzz/",
+                "serves_properties": ["C02", "C08"],
+                "kind_free_text": "supplementary coverage-guided fuzzing (atheris/libFuzzer) of the body parser with the three-valued reference scanner as in-target oracle; run from the C02/C08 checks, findings re-checked through check_case",
+            },
         ],
         "checks": checks,
         "notes": "All checks: exit 0 held / 1 VIOLATION line(s) / 2 harness error. Known findings in known_findings.json.",
